@@ -48,13 +48,14 @@ class TransactionWrapper(Wrapper):
 
 
 class TransactionContextDecorator:
-    __slots__ = ["_mode", "_timeout", "_inner", "_return_token"]
+    __slots__ = ["_mode", "_timeout", "_inner", "_return_token", "_tx"]
 
     def __init__(self, mode: TransactionMode | None = None, timeout: float | None = None):
         self._mode = mode
         self._timeout = timeout
         self._inner = False
         self._return_token: Token | None = None
+        self._tx: Transaction | None = None
 
     @property
     def current_tx(self) -> Transaction | None:
@@ -68,14 +69,16 @@ class TransactionContextDecorator:
 
     def start(self) -> Transaction:
         tx = Transaction(self._mode, self._timeout)
+        self._tx = tx
         self._return_token = _transaction.set(tx)
         return tx
 
     def close(self):
+        self._tx = None
         _transaction.reset(self._return_token)
 
     async def __aexit__(self, exc_type, exc_value, exc_tb) -> None:
-        if not self.current_tx or self._inner:
+        if not self._tx or self._inner:
             self._inner = False
             return
         try:
@@ -95,12 +98,12 @@ class TransactionContextDecorator:
         return wrapper  # type: ignore[return-value]
 
     async def commit(self) -> None:
-        if self.current_tx:
-            await self.current_tx.commit()
+        if self._tx:
+            await self._tx.commit()
 
     async def rollback(self) -> None:
-        if self.current_tx:
-            await self.current_tx.rollback()
+        if self._tx:
+            await self._tx.rollback()
 
 
 class Transaction:
